@@ -715,10 +715,11 @@ class DesignSpace:
                 )
                 raise ValueError(msg)
             if variable_names is None:
-                if self.__lower_bounds_array is None:
+                # The cached arrays are only up-to-date with the normalization data.
+                if self.__lower_bounds_array is None or not self.__norm_data_is_computed:
                     self.__lower_bounds_array = self.get_lower_bounds()
 
-                if self.__upper_bounds_array is None:
+                if self.__upper_bounds_array is None or not self.__norm_data_is_computed:
                     self.__upper_bounds_array = self.get_upper_bounds()
 
                 self.__check_membership_x_vect(x_vect)
